@@ -26,8 +26,8 @@ type EventW struct {
 	Publishers int `json:"publishers"`
 	Messages   int `json:"messages"` // per publisher
 	Managers   int `json:"managers"`
-	Subs       int `json:"subs"`     // subscriptions per manager (sequentially: subscribe ... unsubscribe)
-	Hold       int `json:"hold"`     // a manager keeps a subscription until the clock advanced by up to this much
+	Subs       int `json:"subs"`      // subscriptions per manager (sequentially: subscribe ... unsubscribe)
+	Hold       int `json:"hold"`      // a manager keeps a subscription until the clock advanced by up to this much
 	KeepOpen   int `json:"keep_open"` // of the last subscriptions of each manager, this many are left to Close()
 	UnsubAll   int `json:"unsub_all"` // number of UnsubscribeAll calls spread over the run by manager 0
 	Yield      int `json:"yield"`
